@@ -403,6 +403,12 @@ func (t *TempoService) Search(ctx context.Context,
 }
 
 func decodeParentId(parentId []byte) ([]byte, error) {
+	if n := len(parentId); n > 0 && n < 16 {
+		// the writer accepts short hex ids and stores them left-padded with zeros: read them back the same way
+		padded := []byte("0000000000000000")
+		copy(padded[16-n:], parentId)
+		parentId = padded
+	}
 	if len(parentId) < 16 {
 		return nil, nil
 	}
